@@ -31,12 +31,16 @@ def gen_spec(r, i, stream):
         cond = ['functions', 'nosource', 'mixed'][(i // 3) % 3]
     else:
         cond = r.choice(['ivp', 'lookup'])
-    spec = {'kind': kind, 'cond': cond, 'opt': ['sgd', 'adam'][(i // 2) % 2], 'seed': r.randint(0, 2 ** 31 - 1),
+    spec = {'kind': kind, 'cond': cond, 'opt': ['sgd', 'adam', 'clipped', 'plaingd', 'sgd', 'adam', 'lbfgs'][(i // 2) % 7], 'seed': r.randint(0, 2 ** 31 - 1),
             'numbers': [r.randint(-8, 8) / 4, r.randint(-8, 8) / 4, r.randint(-8, 8) / 4],
             'custom_loss': r.random() < 0.5, 'eq_param': kind == 'bundle' and r.random() < 0.5, 'stream': stream,
             'gen': r.choice(['default', 'batch', 'resample', 'noisy']), 'no_bounds': kind == '1d' and r.random() < 0.5, 'twin': True,
             # BatchNorm cannot be differentiated three times (2-D Laplace residual): Dropout only for Solver2D
             'net': r.choice(['plain', 'plain', 'dropout', 'batchnorm' if kind != '2d' else 'dropout'])}
+    if spec['opt'] == 'lbfgs' and spec['gen'] in ('batch', 'resample'):
+        # outside C18 (reported separately): a closure optimiser re-runs backward over a batch that ResampleGenerator /
+        # BatchGenerator produced by indexing, and torch refuses the second backward through that shared graph
+        spec['gen'] = 'noisy'
     ops = [['fit', r.randint(0, 5), 1.0]]
     n_cycles = r.randint(1, 3)
     for c in range(n_cycles):
@@ -103,11 +107,11 @@ def main():
     ck = Check('C18')
     ck.rule = ('scenario = (stream a: dill as installed | b: dill.dump(byref=True) shim) x solver kind (Solver1D, Solver2D, BundleSolver1D) x '
                'conditions (numbers; functions with / without retrievable source; bundle lookup dict) x train generator (noisy grid | uniform | '
-               'BatchGenerator | ResampleGenerator, all behind counting spies; Solver1D with and without t_min/t_max) x optimiser SGD/Adam x default|custom loss x '
+               'BatchGenerator | ResampleGenerator, all behind counting spies; Solver1D with and without t_min/t_max) x optimiser SGD | Adam | ClippedAdam(Adam) subclass | user-written Optimizer | LBFGS x default|custom loss x '
                'network plain FCNN | with Dropout | with BatchNorm1d (training flags observed) x eq_param_index on/off x 0..5 epochs before the first save x 1..3 cycles of [checkpoint] save|save+load, fit 1..3 (loss scale 1 or 64); '
                'after every operation the observable solver state (fingerprints of nets/optimiser, histories, lowest loss, best nets, condition '
                'dictionaries, loss function, eq_param_index, whether the next fit works, draw counts of the generator spies, changes of the global RNG '
-               'states across save) is compared with Persist.v inside Coq; scenarios without load are re-run on a never-saved twin (same seeds): '
+               'states across save) is compared with Persist.v inside Coq; every scenario is re-run on a never-saved, never-loaded twin (same seeds): '
                'histories, networks and draw counts must coincide; '
                'distinct = distinct scenario')
     os.makedirs(WORK, exist_ok=True)
